@@ -639,7 +639,7 @@ package websocket
 //@     ensures {C06,C02,C01} forall e: uint32 :: evcount(Broadcast, hagallpb.EntityDeleteBroadcast, EntityId, e) == old(evcount(Broadcast, hagallpb.EntityDeleteBroadcast, EntityId, e)) + ite(old(gone(S, P.ID, e)) && !flag(h.FeatureFlags, featureflag.FlagDisableEntityDeleteBroadcast), 1, 0)
 //@     ensures {C07,C01} (len(S.participants) == 0) <==> !registered(R, S)
 //@     ensures {C07,C01} len(S.participants) == 0 ==> once_done(S.closeOnce)
-//@     emits {C06,C02,C01} [when h.stopFrameHandling != nil =>> callfn(h.stopFrameHandling); when !flag(h.FeatureFlags, featureflag.FlagDisableParticipantLeaveBroadcast) =>> Broadcast(S, P, hagallpb.ParticipantLeaveBroadcast{Type: hagallpb.MsgType_MSG_TYPE_PARTICIPANT_LEAVE_BROADCAST, ParticipantId: P.ID})]
+//@     emits {C06,C02,C01} [when h.stopFrameHandling != nil =>> callfn(h.stopFrameHandling); when !flag(h.FeatureFlags, featureflag.FlagDisableParticipantLeaveBroadcast) =>> Broadcast(S, P, hagallpb.ParticipantLeaveBroadcast{Type: hagallpb.MsgType_MSG_TYPE_PARTICIPANT_LEAVE_BROADCAST, ParticipantId: P.ID}); when len(S.participants) == 1 =>> Close(S)]
 //@   complete behaviours
 //@   disjoint behaviours
 //@   loop 1:
